@@ -1,23 +1,23 @@
 #!/bin/sh
 # tools/keep_seeded.sh <PROP> <n> <mutdir> <worktree> "<needs>"  — confirm a seeded change and file it under seeded/<PROP>-mut<n>/
-prop=$1; n=$2; d=$3; wt=$4; needs=$5
+prop=$1; n=$2; d=$3; wt=$4; needs=$5; checks=${6:-$1}
 out=$(tools/confirm_seeded.sh $d $wt 2>&1 | tail -1); echo "$prop mut$n: $out"
 case "$out" in *"clean=0 mutated=1 new_test_failures=0"*) ;; *) echo "NOT CONFIRMED"; exit 1;; esac
-res=$(tools/try_seeded.sh $d/patch.diff $prop 2>&1)
+res=$(tools/try_seeded.sh $d/patch.diff $checks 2>&1)
 caught=$(echo "$res" | grep -c "^VIOLATION")
 first=$(echo "$res" | grep -A1 "^VIOLATION" | sed -n 2p | cut -c1-300)
 nf=$(echo "$res" | grep "^VIOLATION" | grep -c "no-failing-input-found")
 dst=seeded/$prop-mut$n; mkdir -p $dst
 cp $d/patch.diff $dst/patch.diff; cp $d/demo.py $dst/demo.py; [ -f $d/notes.md ] && cp $d/notes.md $dst/notes.md
-python3 - "$prop" "$n" "$needs" "$caught" "$nf" "$first" "$(git -C /repo rev-parse --short HEAD)" <<'PY'
+python3 - "$prop" "$n" "$needs" "$caught" "$nf" "$first" "$(git -C /repo rev-parse --short HEAD)" "$checks" <<'PY'
 import json,sys
-prop,n,needs,caught,nf,first,head=sys.argv[1:8]
+prop,n,needs,caught,nf,first,head,checks=sys.argv[1:9]
 json.dump({"property":prop,"breaks":"see notes.md (written by the seeding agent, which saw only the property text)",
  "needs_to_manifest":needs,
  "confirmed":{"repo_head":head,"demo_exit_clean_tree":0,"demo_exit_with_change":1,"new_test_failures_with_change":0,
    "commands":["tools/confirm_seeded.sh <dir> <scratch worktree>  (pytest -k 'not ftp' before/after; demo.py before/after)",
                "tools/try_seeded.sh patch.diff %s  (quick check against a scratch worktree, VERIF_REPO)"%prop]},
- "detected_by_quick_check":int(caught)>0,"violation_lines":int(caught),"no_failing_input_found_lines":int(nf),"first_violation":first},
+ "checks_run":checks.split(),"detected_by_quick_check":int(caught)>0,"violation_lines":int(caught),"no_failing_input_found_lines":int(nf),"first_violation":first},
  open("seeded/%s-mut%s/meta.json"%(prop,n),"w"),indent=1)
 PY
 echo "  caught=$caught nf=$nf :: $first"
